@@ -1,4 +1,5 @@
 import GuppyVerif.Model.FeatureGate
+import GuppyVerif.Model.ClosureGate
 import GuppyVerif.Util.Sexp
 /-! Line-protocol driver for C33.  Request: `<0|1> <prog>` where
     prog ::= skip | raise | (seq p q) | (call e|d) | (with e|d p) | (bind n e|d) | (withvar n p)
@@ -42,7 +43,36 @@ def showObs : Obs → String
   | .reject f .experimental => "R:" ++ showFeature f ++ ":exp"
   | .reject f .unsupported => "R:" ++ showFeature f ++ ":uns"
 
+/-! Closure-gate requests: `cl <0|1> (<item> ...)` with
+    item ::= (v x) | (f x) | (n name (param ...) (stmt ...)),  stmt ::= (<assigned name | -> read ...).
+    Reply: accept | reject | illegal. -/
+open GuppyVerif.ClosureGate in
+def stmt? : Sexp → Option Stmt
+  | .list (.atom a :: reads) => do
+      let rs ← reads.mapM Sexp.asNat?
+      if a == "-" then some ⟨rs, none⟩ else some ⟨rs, some (← a.toNat?)⟩
+  | _ => none
+
+open GuppyVerif.ClosureGate in
+def item? : Sexp → Option Item
+  | .list [.atom "v", x] => x.asNat?.map fun n => .localVar n .value
+  | .list [.atom "f", x] => x.asNat?.map fun n => .localVar n .func
+  | .list [.atom "n", nm, .list ps, .list ss] => do
+      some (.nested ⟨← nm.asNat?, ← ps.mapM Sexp.asNat?, ← ss.mapM stmt?⟩)
+  | _ => none
+
+open GuppyVerif.ClosureGate in
+def handleClosure (flag : String) (items : List Sexp) : String :=
+  match items.mapM item? with
+  | some its =>
+    match checkOuter (flag == "1") [] its with
+    | .accept => "accept" | .reject => "reject" | .illegalAssign => "illegal"
+  | none => "bad-op"
+
 def handle (line : String) : String :=
+  match Sexp.parse ("(" ++ line ++ ")") with
+  | some (.list [.atom "cl", .atom f, .list items]) => handleClosure f items
+  | _ =>
   match Sexp.parse ("(" ++ line ++ ")") with
   | some (.list [.atom b, p]) =>
     match prog? p with
